@@ -58,6 +58,8 @@ PROPS = {
     },
     "C13": {
         "engine": "storesim",
+        # plugin-generated names / output directories: bufgen end to end with scripted plugins, containment oracles only
+        "also": [{"engine": "gensim", "runs": {"quick": 800, "thorough": 60000}}],
         "level": "exploration",
         "runs": {"quick": 4000, "thorough": 400000},
         "max_wall_s": {"quick": 0, "thorough": 1500},
@@ -70,8 +72,9 @@ PROPS = {
                  "base must be unchanged, and a path that escapes by an independent lexical resolver must have been rejected; non-trivial = at "
                  "least 4 operation kinds; distinct = distinct full trace hash; distinct hostile spellings reached are reported separately"),
         "real": ["storagemem", "storageos", "storage.Map*/Filter*/Multi/Overlay/Strip", "storagearchive Untar/Unzip with hostile entry names",
-                 "normalpath.NormalizeAndValidate", "bufprotoplugin.ResponseWriter.WriteResponse"],
-        "stubbed": ["nothing"],
+                 "normalpath.NormalizeAndValidate", "bufprotoplugin.ResponseWriter.WriteResponse",
+                 "bufgen.Generator incl. clean-before-generate, bufprotopluginos response writer and cleaner (second engine, containment oracles only)"],
+        "stubbed": ["nothing in the storage engine; scripted in-process plugins in the generation engine"],
         "assumptions": COMMON_ASSUMPTIONS + [
             "only the history clause is decided; the 'exhaustively up to a length bound' clause is sampled (coverage of the short-string set is measured and reported, not assumed)",
             "normalpath_windows.go is not built on this platform",
